@@ -248,11 +248,15 @@ def check_mixed(res):
         shutil.rmtree(root, ignore_errors=True)
 
 
-TREE = ['a', 'b.a', '.h', 'd/', 'd/a', 'd/.h', 'd/e/', 'd/e/a', 'A', 'caf\xe9', 'd/\xe9\xff']
+TREE = ['a', 'b.a', '.h', 'd/', 'd/a', 'd/.h', 'd/e/', 'd/e/a', 'A', 'caf\xe9', 'd/\xe9\xff', 'l\xe9/', 'l\xe9/a', 'l\xe9/s/',
+        'k -> d']
 WALK_PATS = ['*', '**', '**/a', 'd/*', '*/', '.*', '**/.*', '[a-b]*', 'caf[\xe9]', 'caf\xe9', '*[\x80-\xff]*', 'd/[!a]*',
-             '@(a|b.a)', '!(a)', '**/*\xff', '{a,A}', 'a|A']
-WALK_FLAGS = ['GE', 'GDE', 'GEK', 'GEBS', 'GEO', 'GEI']
-GLW = dict(GL, K=G.MARK)
+             '@(a|b.a)', '!(a)', '**/*\xff', '{a,A}', 'a|A',
+             # a non-ASCII byte in a directory segment; zero-segment results of a trailing globstar; doubled separators;
+             # base-name matching through links
+             'l\xe9/*', '?\xe9/*/', '*\xe9/**', 'd/**', '*/**', 'd/**/', 'k/**', 'd//a', '*//', 'a', 'e']
+WALK_FLAGS = ['GE', 'GDE', 'GEK', 'GEBS', 'GEO', 'GEI', 'LEFX', 'GEXK', 'GEF']
+GLW = dict(GL, K=G.MARK, F=G.FOLLOW)
 
 
 def check_walk(res):
@@ -260,6 +264,9 @@ def check_walk(res):
     broot = os.fsencode(root)
     try:
         for t in TREE:
+            if ' -> ' in t:
+                os.symlink(t.split(' -> ')[1], os.path.join(root, t.split(' -> ')[0]))
+                continue
             bp = os.path.join(broot, t.encode('latin-1'))
             if t.endswith('/'):
                 os.makedirs(bp, exist_ok=True)
@@ -282,6 +289,19 @@ def check_walk(res):
                 if not ok:
                     res.add_violation(ID, run.viol('glob-bytes', {'pattern': bpat, 'flags': fs, 'tree': TREE},
                                                    [os.fsencode(x) for x in a[1]] if a[0] == 'ok' else a, b[1] if b[0] == 'ok' else b))
+                    continue
+                # the same through a directory descriptor, str and bytes
+                fd = os.open(root, os.O_RDONLY | os.O_DIRECTORY)
+                try:
+                    c = _call(G.glob, spat, flags=fl, dir_fd=fd)
+                    d = _call(G.glob, bpat, flags=fl, dir_fd=fd)
+                finally:
+                    os.close(fd)
+                res.n['evaluations'] += 1
+                srt = lambda r: (r[0], sorted(r[1])) if r[0] == 'ok' else r  # noqa: E731
+                if srt(c) != srt(a) or srt(d) != srt(b):
+                    res.add_violation(ID, run.viol('glob-bytes', {'pattern': bpat, 'flags': fs, 'tree': TREE, 'root': 'dir_fd'},
+                                                   {'str': srt(a), 'bytes': srt(b)}, {'str': srt(c), 'bytes': srt(d)}))
             # WcMatch
             for wf, wn in ((WM.RECURSIVE | WM.HIDDEN, 'RV|HD'), (WM.RECURSIVE, 'RV'), (WM.RECURSIVE | WM.FILEPATHNAME | WM.GLOBSTAR, 'RV|FP|G')):
                 if '/' in p and not wf & WM.FILEPATHNAME:
